@@ -2,7 +2,10 @@
 C14 line-protocol driver.
 
   ca <ev>;<ev>;…        a history of start-ups of the PKI app on one storage, oldest first
-      ev    = <life>:<fault> | d:<key> | c:<key>><key>
+      ev    = <life>:<fault> | m:<fault> | d:<key> | c:<key>><key>
+              (m = the process left running by the latest start-up — if that returned — performs
+               one maintenance pass `renewCerts` (hook VerifRenewCerts); a later start-up means
+               that process is gone; answer `m:<res> [<ops>] {…}` or `m:norun {…}`)
               (d / c = somebody deletes a stored value / copies one over another between two
                start-ups: not an interruption — used only to reach the decode-error branches)
       life  = s | l            intermediate lifetime 1ns (inside its renewal window at once) | default
@@ -73,9 +76,10 @@ def resToks : Res Mem → List Tok
 def eventToks (r : Res Mem) : List Tok :=
   resToks r ++ [.s " ["] ++ sepBy (.s ",") (r.sys.log.map opToks) ++ [.s "] {"] ++ storeToks r.sys.store ++ [.s "}"]
 
-/-- a step of a `ca` line: a start-up, or tampering with the storage -/
+/-- a step of a `ca` line: a start-up, a maintenance pass, or tampering with the storage -/
 inductive CAStep
   | start (e : Event)
+  | tick (now : Nat) (f : Option Fault)
   | del (k : Key)
   | copy (src dst : Key)
 
@@ -83,14 +87,20 @@ def Store.unset (s : Store) (k : Key) : Store := fun k' => if k' = k then none e
 
 def tamperToks (s : Store) : List Tok := [.s "T {"] ++ storeToks s ++ [.s "}"]
 
-def caToks (ord : Order) : List CAStep → Disk → List (List Tok)
+def caToks (ord : Order) : List CAStep → World → List (List Tok)
   | [], _ => []
-  | .start e :: es, d => eventToks (e.run ord d) :: caToks ord es (e.after ord d)
-  | .del k :: es, d => tamperToks (d.store.unset k) :: caToks ord es ⟨d.store.unset k, d.fresh⟩
-  | .copy a b :: es, d =>
-    match d.store a with
-    | some v => tamperToks (d.store.set b v) :: caToks ord es ⟨d.store.set b v, d.fresh⟩
-    | none => tamperToks (d.store.unset b) :: caToks ord es ⟨d.store.unset b, d.fresh⟩
+  | .start e :: es, w => eventToks (e.run ord w.disk) :: caToks ord es (w.step ord (.start e))
+  | .tick n f :: es, w =>
+    match w.proc with
+    | none => ([.s "m:norun {"] ++ storeToks w.disk.store ++ [.s "}"]) :: caToks ord es (w.step ord (.tick n f))
+    | some (m, life) =>
+      (.s "m:" :: eventToks (tickRun ord n f life m w.disk)) :: caToks ord es (w.step ord (.tick n f))
+  | .del k :: es, w =>
+    tamperToks (w.disk.store.unset k) :: caToks ord es { w with disk := ⟨w.disk.store.unset k, w.disk.fresh⟩ }
+  | .copy a b :: es, w =>
+    match w.disk.store a with
+    | some v => tamperToks (w.disk.store.set b v) :: caToks ord es { w with disk := ⟨w.disk.store.set b v, w.disk.fresh⟩ }
+    | none => tamperToks (w.disk.store.unset b) :: caToks ord es { w with disk := ⟨w.disk.store.unset b, w.disk.fresh⟩ }
 
 def lookupId (n : Nat) : List Nat → Nat → Option Nat
   | [], _ => none
@@ -125,6 +135,7 @@ def parseKey : String → Option Key
 
 def parseCAEvent (now : Nat) (s : String) : Option CAStep :=
   match s.splitOn ":" with
+  | ["m", fault] => (parseFault fault).map (.tick now)
   | ["d", k] => (parseKey k).map .del
   | ["c", ab] =>
     match ab.splitOn ">" with
@@ -145,7 +156,7 @@ def parseCAEvents : List String → Nat → Option (List CAStep)
 
 def handleCA (hist : String) : String :=
   match parseCAEvents (hist.splitOn ";") 1 with
-  | some evs => render (sepBy (.s " ; ") (caToks codeOrder evs Disk.empty)) [] ""
+  | some evs => render (sepBy (.s " ; ") (caToks codeOrder evs World.empty)) [] ""
   | none => "bad-op"
 
 /-! ### autosave -/
